@@ -120,12 +120,27 @@ func mergeMappings(mapping map[string]any, other map[string]any, p tree.Path) (m
 
 // logging driver options are merged only when both compose file define the same driver
 func mergeLogging(c any, o any, p tree.Path) (any, error) {
-	config := c.(map[string]any)
-	other := o.(map[string]any)
+	config, ok := c.(map[string]any)
+	if !ok {
+		return nil, fmt.Errorf("%s must be a mapping", p)
+	}
+	other, ok := o.(map[string]any)
+	if !ok {
+		return nil, fmt.Errorf("%s must be a mapping", p)
+	}
 	// we override logging config if source and override have the same driver set, or none
 	d, ok1 := other["driver"]
 	o, ok2 := config["driver"]
-	if d == o || !ok1 || !ok2 {
+	if !ok1 || !ok2 {
+		return mergeMappings(config, other, p)
+	}
+	if _, ok := d.(string); !ok {
+		return nil, fmt.Errorf("%s.driver must be a string", p)
+	}
+	if _, ok := o.(string); !ok {
+		return nil, fmt.Errorf("%s.driver must be a string", p)
+	}
+	if d == o {
 		return mergeMappings(config, other, p)
 	}
 	return other, nil
